@@ -205,6 +205,8 @@ class Obj:
                     rec["dq"] = qdiff(got, ref, 1e-8)
                 rec["dense"] = True
                 self.ref = ref
+            else:
+                self.dense = False   # no reference any more for this object: only its gate log is judged from here on
         elif self.cyclic and self.sweeps > CYC_SWEEPS:
             self.dense = False       # bonds reached the cap: later states are truncated, only the gate log is judged
         # advance the specification's view of the object
@@ -658,6 +660,8 @@ def tgen_case(rng, k):
     edges = GRAPHS[name]
     reflect = bool(k % 2)
     steps = int(rng.integers(1, 4))
+    if name == "square" and reflect:
+        steps = min(steps, 2)     # a loop has no canonical form: every gate doubles its bond, stay below D = 64
     tau = 0.125
     rec = {"ev": "tgen", "tid": 560000 + k, "graph": name, "reflect": reflect, "steps": steps, "exc": "", "dq": 0}
     try:
